@@ -25,6 +25,10 @@ EXPLICIT_PANICKERS = [
     (r"^core::cell::RefCell::<T>::(borrow|borrow_mut|replace|swap|replace_with)$", "RefCell dynamic borrow check"),
     (r"^core::option::Option::<T>::(unwrap|expect)$|^core::result::Result::<T, E>::(unwrap|expect|unwrap_err|expect_err)$", "unwrap/expect"),
 ]
+# std combinators that carry #[track_caller] only so that a panic *inside the closure they are given* is attributed to the caller;
+# they do not panic themselves (the closure body is a body of its own and is analysed as such)
+TRACK_CALLER_ONLY_FOR_CLOSURE = re.compile(r"^core::option::Option::<T>::(unwrap_or_else|map_or_else|ok_or_else|or_else|and_then|map|map_or|filter|get_or_insert_with|is_some_and|is_none_or|inspect|zip_with|then)$"
+                                           r"|^core::result::Result::<T, E>::(unwrap_or_else|map_or_else|or_else|and_then|map|map_or|map_err|is_ok_and|is_err_and|inspect|inspect_err)$")
 EXPLICIT_RX = [(re.compile(r), why) for r, why in EXPLICIT_PANICKERS]
 PANIC_FNS = re.compile(r"^(core::panicking::|std::panicking::|core::option::(unwrap_failed|expect_failed)|core::result::unwrap_failed|std::rt::begin_panic|core::slice::index::slice_|core::str::slice_error_fail)")
 NEVER_PANIC = re.compile(r"^core::panicking::panic_nounwind|^core::panicking::panic_cannot_unwind|^core::panicking::panic_in_cleanup")
@@ -41,6 +45,8 @@ def is_panicker(t):
         if rx.search(c):
             return True, why
     if t.get("track_caller"):
+        if TRACK_CALLER_ONLY_FOR_CLOSURE.match(c):
+            return False, None
         return True, "#[track_caller] std function (panics on misuse)"
     return False, None
 
